@@ -1233,8 +1233,15 @@ impl Machine {
                     self.release_heap_closures(&local_heap_closures);
                     return nret.into();
                 }
-                Instruction::GetUpValue(dst, index, _size) => {
+                Instruction::GetUpValue(dst, index, size) => {
                     {
+                        // An open upvalue is read from the stack itself: make room for the
+                        // destination first, so that writing it cannot reallocate the stack
+                        // while the source slice is still borrowed from it.
+                        let dst_end = (self.base_pointer + dst as u64) as usize + size as usize;
+                        if dst_end > self.stack.len() {
+                            self.stack.resize(dst_end, 0);
+                        }
                         let up_i = cls_i.unwrap();
                         let cls = self.get_closure(up_i);
                         let upvalues = &cls.upvalues;
